@@ -134,11 +134,16 @@ class _ExecutorWrapper[**Args, Result]:
         **kwargs: Args.kwargs,
     ) -> Result:
         context: Context = copy_context()
-        return await (self._loop or get_running_loop()).run_in_executor(
+        result, error = await (self._loop or get_running_loop()).run_in_executor(
             self._executor,
             context.run,
+            _outcome,
             partial(self._function, *args, **kwargs),
         )
+        if error is not None:
+            raise error
+
+        return cast(Result, result)
 
     def __get__(
         self,
@@ -166,11 +171,30 @@ class _ExecutorWrapper[**Args, Result]:
         **kwargs: Args.kwargs,
     ) -> Result:
         context: Context = copy_context()
-        return await (self._loop or get_running_loop()).run_in_executor(
+        result, error = await (self._loop or get_running_loop()).run_in_executor(
             self._executor,
             context.run,
+            _outcome,
             partial(self._function, __method_self, *args, **kwargs),
         )
+        if error is not None:
+            raise error
+
+        return cast(Result, result)
+
+
+def _outcome[Result](
+    function: Callable[[], Result],
+    /,
+) -> tuple[Result | None, BaseException | None]:
+    # exceptions delivered through executor futures are not always the raised ones - asyncio
+    # replaces a few of concurrent.futures exception types (including TimeoutError) with new
+    # instances of its own types, carry the raised exception as a result to raise it itself
+    try:
+        return (function(), None)
+
+    except BaseException as exc:
+        return (None, exc)
 
 
 def _mimic_async[**Args, Result](
